@@ -41,7 +41,8 @@ MCNext == \E c \in Cmds : Enabled(c) /\
              /\ Apply(c)
              /\ last' = c
              /\ hist' = Append(hist, c)
-             /\ ("OUT" \in DOMAIN IOEnv /\ Len(hist) <= MaxHist) => EmitScenario(IF NamelessOnes = {} THEN [cmds |-> hist'] ELSE [cmds |-> hist', nameless |-> SeqOfSet(NamelessOnes)])
+             \* (random walks, tlc -simulate with WALK set: only the complete walk of MaxHist commands is emitted)
+             /\ ("OUT" \in DOMAIN IOEnv /\ (IF "WALK" \in DOMAIN IOEnv THEN Len(hist) + 1 = MaxHist ELSE Len(hist) <= MaxHist)) => EmitScenario(IF NamelessOnes = {} THEN [cmds |-> hist'] ELSE [cmds |-> hist', nameless |-> SeqOfSet(NamelessOnes)])
 MCSpec == MCInit /\ [][MCNext]_<<vars, ret, hist, last>>
 StateView == <<vars>>
 
